@@ -161,9 +161,7 @@ FIXED_PATTERNS = [
 ]
 
 
-def gen_cases(tier: str, seed: int):
-    r = random.Random(f"{seed}:C05")
-    max_n, max_len = (3, 3) if tier == "quick" else (6, 4)
+def _gen_exhaustive(tier: str, r: random.Random, max_n: int, max_len: int):
     # exhaustive part
     for n in range(0, max_n + 1):
         alpha = _alphabet(n)
@@ -171,6 +169,9 @@ def gen_cases(tier: str, seed: int):
             for script in itertools.product(alpha, repeat=ln):
                 pat = FIXED_PATTERNS[r.randrange(len(FIXED_PATTERNS))]
                 yield {"n": n, "pat": pat, "dict": r.random() < 0.3, "script": [list(s) for s in script], "part": "exh"}
+
+
+def _gen_fixed(tier: str, r: random.Random, max_n: int, max_len: int):
     # the same statement text executed again over a table of another shape (1..5 columns), fetched in several ways
     for k1, k2, k3 in itertools.permutations([1, 2, 3, 5], 3):
         for d in (False, True):
@@ -181,6 +182,9 @@ def gen_cases(tier: str, seed: int):
     for op in (["one"], ["all"], ["many", 2], ["pandas"], ["as_many", 3]):
         for d in (False, True):
             yield {"n": 0, "pat": FIXED_PATTERNS[0], "dict": d, "script": [op], "part": "before"}
+
+
+def _gen_random(tier: str, r: random.Random, max_n: int, max_len: int):
     # random part
     nrand = 2000 if tier == "quick" else 60000
     for _ in range(nrand):
@@ -213,6 +217,26 @@ def gen_cases(tier: str, seed: int):
             else:
                 script.append(["reexec", r.randint(0, 40), _random_pattern(r)])
         yield {"n": n, "pat": _random_pattern(r), "dict": r.random() < 0.35, "script": script, "part": "rand"}
+
+
+
+
+def gen_cases(tier: str, seed: int):
+    """Fixed families first; then the exhaustive enumeration and the random scripts take turns, so that a time budget trims
+    both instead of starving the one that comes last."""
+    max_n, max_len = (3, 3) if tier == "quick" else (6, 4)
+    yield from _gen_fixed(tier, random.Random(f"{seed}:C05:fixed"), max_n, max_len)
+    its = [_gen_exhaustive(tier, random.Random(f"{seed}:C05"), max_n, max_len), _gen_random(tier, random.Random(f"{seed}:C05:random"), max_n, max_len)]
+    while its:
+        for it in list(its):
+            took = 0
+            for case in it:
+                yield case
+                took += 1
+                if took >= 64:
+                    break
+            if took < 64:
+                its.remove(it)
 
 
 # ----------------------------------------------------------------------------
